@@ -231,7 +231,14 @@ func (e *Engine) verifyFunc(key string, prop string) (*FuncResult, error) {
 			fc.oblig(s, "post.no-panic", Not(fc.panicCond(s)), "normal return only if the panic condition is false: "+con.PanicsSrc, "", nil)
 		}
 		if con.Returns != nil && len(vals) > 0 {
-			fc.oblig(s, "post.returns", fc.equal(vals[0], fc.spec(con.Returns, env)), "returns "+con.ReturnsSrc, "", nil)
+			if con.ReturnsDef {
+				// definitional: the spec function on the right is DEFINED as the value this pure, deterministic
+				// function returns; nothing to prove, and the other ensures clauses are proved about that value
+				s.assume(fc.equal(vals[0], fc.spec(con.Returns, env)))
+				fc.Assumed["definitional returns clause of "+con.Key+": "+con.ReturnsSrc+" names the result of a pure deterministic function (it reads no global state)"] = true
+			} else {
+				fc.oblig(s, "post.returns", fc.equal(vals[0], fc.spec(con.Returns, env)), "returns "+con.ReturnsSrc, "", nil)
+			}
 		}
 		for _, en := range con.Ensures {
 			if !clauseFor(en.Props, prop) {
